@@ -39,7 +39,37 @@ func (ex *Exec) indexModel(hay, sep Region) *Term {
 	}
 	cons = append(cons, c.Or(append(anyMatch, notFound)...))
 	ex.addAxiom(c.And(cons...))
+	if v, ok := ex.uniqueValue(r); ok {
+		return v
+	}
 	return r
+}
+
+// uniqueValue asks the solver whether t has exactly one possible value under the path
+// condition; if so the constant is returned (and t == const becomes part of the PC).
+func (ex *Exec) uniqueValue(t *Term) (*Term, bool) {
+	c := ex.ctx
+	if t.isConst {
+		return t, true
+	}
+	q := c.Script(ex.pc, []*Term{t})
+	if ex.pool.Check(q, ex.eng.branchMs, 0) != Sat {
+		return nil, false
+	}
+	vals, err := ex.pool.GetValues([]string{c.Inline(t)})
+	if err != nil {
+		return nil, false
+	}
+	bv, ok := parseValue(vals[0])
+	if !ok {
+		return nil, false
+	}
+	k := c.BVBig(bv, t.sort.W)
+	if ex.feasible(c.Not(c.Eq(t, k))) != Unsat {
+		return nil, false
+	}
+	ex.addPC(c.Eq(t, k))
+	return k, true
 }
 
 func registerBytes(e *Engine) {
